@@ -78,6 +78,19 @@ func genProbe(r *simrt.RNG, i int, nids int) ProbeSpec {
 	if r.Bool(0.5) {
 		p.Inputs = append(p.Inputs, InputSpec{Type: TypeB, Kind: kinds[r.Pick([]int{3, 2, 2})], ID: id()})
 	}
+	if r.Bool(0.3) {
+		// overlapping inputs: the same type once by kind and once by id, with different input kinds (each input keeps
+		// its own notification rule)
+		first := p.Inputs[0]
+		second := InputSpec{Type: TypeA, ID: ""}
+		if first.ID == "" {
+			second.ID = fmt.Sprintf("r%d", r.Intn(nids))
+		}
+		for second.Kind == "" || second.Kind == first.Kind {
+			second.Kind = kinds[r.Intn(3)]
+		}
+		p.Inputs = append(p.Inputs, second)
+	}
 	switch r.Pick([]int{5, 3, 2}) {
 	case 1:
 		p.MoreAt = 1 + r.Intn(3)
@@ -104,6 +117,9 @@ func (c05) Gen(seed uint64, tier string) Case {
 		}
 	}
 	c.RT.Metrics = r.Bool(0.3)
+	if r.Bool(0.25) {
+		c.RT.BatchMs = []int{1, 50, 500}[r.Intn(3)]
+	}
 	nids := 1 + r.Intn(3)
 	uniq := 0
 	types := []string{TypeA, TypeB, TypeC}
@@ -187,6 +203,11 @@ func (c05) Shrink(cs Case) []Case {
 	if len(c.RT.Cached) > 0 {
 		n := cloneJSON(c)
 		n.RT.Cached = nil
+		out = append(out, n)
+	}
+	if c.RT.BatchMs > 0 {
+		n := cloneJSON(c)
+		n.RT.BatchMs = 0
 		out = append(out, n)
 	}
 	if c.RT.ListFaults > 0 {
